@@ -2,13 +2,23 @@ package generator
 
 import (
 	"fmt"
+	"sort"
 
 	"github.com/jmattheis/goverter/method"
 )
 
 func validateMethods(lookup *method.Index[generatedMethod]) error {
-	for _, hits := range lookup.Exact {
-		for _, entry := range hits {
+	// iterate in a stable order, otherwise the reported method differs between runs
+	signatures := make([]string, 0, len(lookup.Exact))
+	bySignature := map[string][]method.IndexEntry[generatedMethod]{}
+	for sig, hits := range lookup.Exact {
+		key := sig.Source + " -> " + sig.Target
+		signatures = append(signatures, key)
+		bySignature[key] = hits
+	}
+	sort.Strings(signatures)
+	for _, sig := range signatures {
+		for _, entry := range bySignature[sig] {
 			genMethod := entry.Item
 
 			if genMethod.Explicit && len(genMethod.RawFieldSettings) > 0 {
